@@ -391,10 +391,15 @@ def layoutRaw (w : World) (root : Path) (ps3 : Bool) : Option Layout :=
 def layoutOf (w : World) (root : Path) (ps3 : Bool) : Option Layout :=
   match layoutRaw w root ps3 with
   | none => none
-  | some L => if L.volumeSize + 2 * Gen.fs_basePadSectors > maxSector then none else some L
+  | some L =>
+    if L.volumeSize + 2 * Gen.fs_basePadSectors > maxSector then none
+    -- directory numbers in the path table are 16-bit: a tree with more directories is refused
+    else if L.items.length > Gen.fs_pathTableItemsLimit then none
+    else some L
 
 theorem layoutOf_some {w : World} {root : Path} {ps3 : Bool} {L : Layout} (h : layoutOf w root ps3 = some L) :
-    layoutRaw w root ps3 = some L ∧ L.volumeSize + 2 * Gen.fs_basePadSectors ≤ maxSector := by
+    layoutRaw w root ps3 = some L ∧ L.volumeSize + 2 * Gen.fs_basePadSectors ≤ maxSector ∧
+      L.items.length ≤ Gen.fs_pathTableItemsLimit := by
   unfold layoutOf at h
   cases hr : layoutRaw w root ps3 with
   | none => simp [hr] at h
@@ -402,9 +407,11 @@ theorem layoutOf_some {w : World} {root : Path} {ps3 : Bool} {L : Layout} (h : l
     simp only [hr] at h
     by_cases hc : L'.volumeSize + 2 * Gen.fs_basePadSectors > maxSector
     · simp [hc] at h
-    · simp only [hc, if_false, Option.some.injEq] at h
-      subst h
-      exact ⟨rfl, Nat.le_of_not_lt hc⟩
+    · by_cases hd : L'.items.length > Gen.fs_pathTableItemsLimit
+      · simp [hc, hd] at h
+      · simp only [hc, hd, if_false, Option.some.injEq] at h
+        subst h
+        exact ⟨rfl, Nat.le_of_not_lt hc, Nat.le_of_not_lt hd⟩
 
 def Layout.recsOf (L : Layout) (joliet : Bool) (dirLBA : Nat) : List (List DirRec) :=
   (List.range L.items.length).filterMap (fun k =>
